@@ -3,7 +3,7 @@ import time
 
 from vlib import c01_driver as D
 from vlib import c01_harness as H
-from vlib.c08_gen import build_one, build_group, Builder
+from vlib.c08_gen import build_one, build_group, Builder, RVE_POSITIONS, uses_tra
 from vlib.configs import compile_src
 from vlib.configs import configs, Config, USABLE_FLAGS
 
@@ -40,6 +40,14 @@ def finding_key(fname, cfg):
         cls = "arithmetic-operands"
     elif lab.startswith("bool"):
         cls = "boolop"
+    elif lab.startswith("rve_"):
+        # left operand reads mutable state (storage / transient / len / map / array / struct field / self.balance), the right
+        # operand is a call changing it: one key per kind of compound form
+        cx = lab[4:].rsplit("_", 1)[0]
+        cls = "read-vs-effect:" + {"add": "arithmetic", "sub": "arithmetic", "mul": "arithmetic", "div": "arithmetic",
+                                   "mod": "arithmetic", "aug": "arithmetic", "cmp": "compare", "bit": "bitwise", "and": "boolop",
+                                   "or": "boolop", "max": "builtin", "min": "builtin", "list": "constructor",
+                                   "struct": "constructor"}.get(cx, cx)
     else:
         cls = lab
     return f"C08:{pipe}:{cls}"
@@ -82,7 +90,7 @@ def handle_diff(ctx, it, cfg, d, mk, seen_keys, aug_value_diffs):
     try:
         pos, rnd = it["group"][d["call"]]
         single = build_one(mk, pos, rnd).p
-        calls1 = [H.Call(0, [])]
+        calls1 = [H.Call(0, [], value=single.c08_values.get(0, 0))]
         m1 = H.model_eval([(single, calls1)], "c08s", full=True, procs=1)[0]
         o1 = H.observe(single, cfg, calls1, single.vy(prune=True))
         d1 = H.compare(single, calls1, m1, o1, unordered={0} if d["call"] in it["unordered"] else ())
@@ -97,6 +105,24 @@ def handle_diff(ctx, it, cfg, d, mk, seen_keys, aug_value_diffs):
         detail["source"] = it["prog"].vy()
         detail["calls"] = [f.abi_sig() for f in it["prog"].exts[:(d.get("call", 0) + 1)]]
     ctx.violation("failing-input", f"effect order/count differs from source order in {fname} under {cfg.name}", detail, key=key)
+
+
+_CLS = None
+
+
+def _classify(job):
+    """which reference front end accepts this (position, round) built alone"""
+    pos, rnd = job
+    mk, ref = _CLS
+    src = build_one(mk, pos, rnd).p.vy()
+    acc, rej = [], {}
+    for pipe, cfg in ref.items():
+        try:
+            compile_src(src, cfg, formats=("bytecode",))
+            acc.append(pipe)
+        except Exception as e:
+            rej[pipe] = f"{type(e).__name__}: {str(e).strip().splitlines()[0][:120]}"
+    return pos, rnd, acc, rej
 
 
 def run(ctx):
@@ -117,25 +143,30 @@ def run(ctx):
     ref = {"legacy": Config(False, "gas", "prague"), "venom": Config(True, "gas", "prague")}
     classes = {}
     rejected_positions = {}
-    for rnd in range(rounds):
-        for pos in Builder.POSITIONS:
-            src = build_one(mk, pos, rnd).p.vy()
-            acc = []
-            for pipe, cfg in ref.items():
-                try:
-                    compile_src(src, cfg, formats=("bytecode",))
-                    acc.append(pipe)
-                except Exception as e:
-                    rejected_positions.setdefault(pos, {})[pipe] = f"{type(e).__name__}: {str(e).strip().splitlines()[0][:120]}"
-            if acc:
-                classes.setdefault((tuple(acc), pos in VALUE_ORDER_FREE), []).append((pos, rnd))
+    # read-vs-effect matrix (compound form x kind of state read): complete in the thorough tier; the quick tier takes one
+    # third of it, rotating with the seed (every compound form and every read kind is present in every run)
+    nr = len(Builder.RVE_READS)
+    rve = [p for k, p in enumerate(RVE_POSITIONS) if ctx.tier != "quick" or (k // nr + k % nr + ctx.seed) % 3 == 0]
+    positions = list(Builder.POSITIONS) + rve
+    jobs = [(pos, rnd) for rnd in range(rounds) for pos in positions
+            if not (pos.startswith("rve_") and rnd >= 2)]     # the read-vs-effect tests have (almost) no random choices
+    global _CLS
+    _CLS = (mk, ref)
+    import multiprocessing as mp
+    with mp.get_context("fork").Pool(4) as pool:
+        done = pool.map(_classify, jobs, chunksize=4)
+    for pos, rnd, acc, rej in done:
+        if rej:
+            rejected_positions.setdefault(pos, {}).update(rej)
+        if acc:
+            classes.setdefault((tuple(acc), pos in VALUE_ORDER_FREE, uses_tra(pos)), []).append((pos, rnd))
     items = []
-    for (acc, vfree), lst in sorted(classes.items()):
+    for (acc, vfree, tra), lst in sorted(classes.items()):
         for k in range(0, len(lst), 10):
             p, unordered, labels = build_group(mk, lst[k:k + 10])
-            calls = [H.Call(i, []) for i in range(len(p.exts))]
+            calls = [H.Call(i, [], value=p.c08_values.get(i, 0)) for i in range(len(p.exts))]
             items.append({"prog": p, "calls": calls, "group": lst[k:k + 10], "unordered": {i for i, u in unordered.items() if u}, "labels": labels, "value_order_free": vfree,
-                          "applicable": (lambda c, acc=acc: ("venom" if c.venom else "legacy") in acc)})
+                          "applicable": (lambda c, acc=acc, p=p: ("venom" if c.venom else "legacy") in acc and D.cfg_applicable(p, c))})
     models = H.model_eval([(it["prog"], it["calls"]) for it in items], "c08", full=True)
     n_events = 0
     n_model_reverts = 0
@@ -184,7 +215,7 @@ def run(ctx):
     ctx.corr["distinct_nontrivial"] = sum(len(it["calls"]) for it in items) * len(cfgs)
     ctx.corr["rule"] = ("one evaluation = one matrix test function executed under one configuration and compared (ordered logs, "
                         "return data, final storage); distinct = distinct (test function, configuration) pairs")
-    ctx.corr["positions"] = Builder.POSITIONS
+    ctx.corr["positions"] = positions
     ctx.corr["per_position_runs"] = per_position
     ctx.corr["model_trace_events"] = n_events
     ctx.corr["model_reverts"] = n_model_reverts
